@@ -134,7 +134,12 @@ def c20(rec, wd):
     exe = _native("c20_frag", ["-Dwrite=vg_shim_write"])
     return _sweep(exe, [[os.path.join(BUILD, "replay-c20.mtbl"), SEED + 1]], "every single EINTR / short write, every EINTR-then-short pair, 200 seeded random fault plans on a 12-entry table")
 
-REPLAYS = {"c16": c16, "c03": c03, "c02": c03, "c04": c04, "c07": c07, "c15": c15, "c18": c18, "c19": c19, "c20": c20}
+def c08(rec, wd):
+    exe = _native("c08_writer", ["-I" + os.path.join(ROOT, "replay")])
+    scen = [[os.path.join(BUILD, "replay-c08.mtbl"), SEED + k, 150] for k in range(1, 5)]
+    return _sweep(exe, scen, "seeded random writer sessions (binary keys, empty key, prefixes, refusals, oversized entries, foreign prefix, pool) checked by a reference comparator, an independent structural validator, trailer-vs-truth and read-back")
+
+REPLAYS = {"c08": c08, "c10": c08, "c09": c08, "c16": c16, "c03": c03, "c02": c03, "c04": c04, "c07": c07, "c15": c15, "c18": c18, "c19": c19, "c20": c20}
 
 def replay_file(path):
     rec = json.load(open(path))
